@@ -340,7 +340,14 @@ class Check:
         from concurrent.futures import ThreadPoolExecutor
         with ThreadPoolExecutor(max_workers=NCPU) as ex:
             futs = [ex.submit(self.coq_eval, "%s_%d" % (name, i), b, requires, timeout) for i, b in enumerate(bodies)]
-            return [f.result() for f in futs]
+            results = [f.result() for f in futs]
+        # a shard that ran out of time on a loaded machine is retried alone with three times the budget before
+        # it is believed (a model that really diverges still ends as a broken tie)
+        for i, (rc, out) in enumerate(results):
+            if rc == 124:
+                self.log("coq shard %s_%d timed out after %ss; retrying alone with %ss" % (name, i, timeout, timeout * 3))
+                results[i] = self.coq_eval("%s_%d" % (name, i), bodies[i], requires, timeout * 3)
+        return results
 
     def coq_failing(self, name, case_terms, requires, check_fn="check_case", case_type="case", per_shard=40, timeout=1200, prelude=""):
         """Evaluate `check_fn : case_type -> bool` (a Gallina function of the property's Corr.v) on every case term
